@@ -94,8 +94,40 @@ func ffiKinds() []ffiKind {
 			cmutRef: `((ddpstring *)(DDP_ANY_VALUE_PTR(%[1]s)))->str[1] = 'R';`,
 			cret:    ``, // only via deep copy of a Variable parameter, see below
 			ddpshow: sh("Schreibe den Text (%[1]s als Text).", ln), cview: "V16,var;", afterRef: "vRr\n", afterVal: "var\n", retView: "var\n"},
+		// the remaining list types (ffiMainKinds = 10 kinds above take part in every arity; these only in arity 0-1 and next to a Zahl)
+		{name: "Kommazahlen Liste", ref: "Kommazahlen Listen Referenz", decl: "Die Kommazahlen Liste", ret: "eine Kommazahlen Liste", init: "eine Liste, die aus 1,5, -2,25 besteht", ctype: "ddpfloatlist *", cref: "ddpfloatlistref",
+			cprint:  `printf("KL%%lld", (long long)(%[1]s)->len); for (ddpint i_ = 0; i_ < (%[1]s)->len; i_++) printf(",%%lld", (long long)((%[1]s)->arr[i_] * 1000)); printf(";");`,
+			cmutVal: `if ((%[1]s)->len > 0) (%[1]s)->arr[0] = 777.0;`,
+			cmutRef: `if ((%[1]s)->len > 1) (%[1]s)->arr[1] = 99.5;`,
+			cret:    `ddp_ddpfloatlist_from_constants(ret, 2); ret->arr[0] = 0.5; ret->arr[1] = -8.0;`,
+			ddpshow: sh("Schreibe die Zahl (die Länge von %[1]s).", "Schreibe den Buchstaben ':'.", "Für jede Kommazahl el_%[1]s in %[1]s, mache:", "\tSchreibe die Kommazahl el_%[1]s.", "\tSchreibe den Buchstaben ';'.", ln),
+			cview:   "KL2,1500,-2250;", afterRef: "2:1,5;99,5;\n", afterVal: "2:1,5;-2,25;\n", retView: "2:0,5;-8;\n"},
+		{name: "Byte Liste", ref: "Byte Listen Referenz", decl: "Die Byte Liste", ret: "eine Byte Liste", init: "eine Liste, die aus (200 als Byte), (7 als Byte) besteht", ctype: "ddpbytelist *", cref: "ddpbytelistref",
+			cprint:  `printf("BL%%lld", (long long)(%[1]s)->len); for (ddpint i_ = 0; i_ < (%[1]s)->len; i_++) printf(",%%u", (unsigned)(%[1]s)->arr[i_]); printf(";");`,
+			cmutVal: `if ((%[1]s)->len > 0) (%[1]s)->arr[0] = 77;`,
+			cmutRef: `if ((%[1]s)->len > 1) (%[1]s)->arr[1] = 99;`,
+			cret:    `ddp_ddpbytelist_from_constants(ret, 2); ret->arr[0] = 255; ret->arr[1] = 0;`,
+			ddpshow: sh("Schreibe die Zahl (die Länge von %[1]s).", "Schreibe den Buchstaben ':'.", "Für jeden Byte el_%[1]s in %[1]s, mache:", "\tSchreibe den Byte el_%[1]s.", "\tSchreibe den Buchstaben ';'.", ln),
+			cview:   "BL2,200,7;", afterRef: "2:200;99;\n", afterVal: "2:200;7;\n", retView: "2:255;0;\n"},
+		{name: "Wahrheitswert Liste", ref: "Wahrheitswert Listen Referenz", decl: "Die Wahrheitswert Liste", ret: "eine Wahrheitswert Liste", init: "eine Liste, die aus wahr, falsch besteht", ctype: "ddpboollist *", cref: "ddpboollistref",
+			cprint:  `printf("WL%%lld", (long long)(%[1]s)->len); for (ddpint i_ = 0; i_ < (%[1]s)->len; i_++) printf(",%%d", (int)(%[1]s)->arr[i_]); printf(";");`,
+			cmutVal: `if ((%[1]s)->len > 0) (%[1]s)->arr[0] = false;`,
+			cmutRef: `if ((%[1]s)->len > 1) (%[1]s)->arr[1] = true;`,
+			cret:    `ddp_ddpboollist_from_constants(ret, 2); ret->arr[0] = false; ret->arr[1] = true;`,
+			ddpshow: sh("Schreibe die Zahl (die Länge von %[1]s).", "Schreibe den Buchstaben ':'.", "Für jeden Wahrheitswert el_%[1]s in %[1]s, mache:", "\tSchreibe den Wahrheitswert el_%[1]s.", "\tSchreibe den Buchstaben ';'.", ln),
+			cview:   "WL2,1,0;", afterRef: "2:wahr;wahr;\n", afterVal: "2:wahr;falsch;\n", retView: "2:falsch;wahr;\n"},
+		{name: "Buchstaben Liste", ref: "Buchstaben Listen Referenz", decl: "Die Buchstaben Liste", ret: "eine Buchstaben Liste", init: "eine Liste, die aus 'a', '€' besteht", ctype: "ddpcharlist *", cref: "ddpcharlistref",
+			cprint:  `printf("CL%%lld", (long long)(%[1]s)->len); for (ddpint i_ = 0; i_ < (%[1]s)->len; i_++) printf(",%%d", (int)(%[1]s)->arr[i_]); printf(";");`,
+			cmutVal: `if ((%[1]s)->len > 0) (%[1]s)->arr[0] = 'Q';`,
+			cmutRef: `if ((%[1]s)->len > 1) (%[1]s)->arr[1] = 0xE4;`,
+			cret:    `ddp_ddpcharlist_from_constants(ret, 2); ret->arr[0] = 'x'; ret->arr[1] = 0x1F600;`,
+			ddpshow: sh("Schreibe die Zahl (die Länge von %[1]s).", "Schreibe den Buchstaben ':'.", "Für jeden Buchstaben el_%[1]s in %[1]s, mache:", "\tSchreibe den Buchstaben el_%[1]s.", "\tSchreibe den Buchstaben ';'.", ln),
+			cview:   "CL2,97,8364;", afterRef: "2:a;ä;\n", afterVal: "2:a;€;\n", retView: "2:x;😀;\n"},
 	}
 }
+
+// ffiMainKinds: the first kinds of ffiKinds() take part in signatures of every arity
+const ffiMainKinds = 10
 
 type ffiParam struct {
 	k   int // index into kinds
@@ -343,6 +375,12 @@ func ffiSignatures(tier string, ks []ffiKind) []ffiSig {
 			add(ffiSig{[]ffiParam{a}, r})
 		}
 	}
+	// the extra list kinds next to a Zahl in both positions (value and Referenz)
+	for _, a := range all[2*ffiMainKinds:] {
+		add(ffiSig{[]ffiParam{a, {0, false}}, -1})
+		add(ffiSig{[]ffiParam{{0, true}, a}, a.k})
+	}
+	all, rets = all[:2*ffiMainKinds], rets[:ffiMainKinds+1] // higher arities: main kinds only
 	// arity 2: thorough = all 400 × 11; quick = every ordered pair once, return kind rotating (pairwise in (p0,p1), (p,ret))
 	i := 0
 	for _, a := range all {
